@@ -6,17 +6,66 @@ props = [json.loads(l) for l in open(os.path.join(V, "properties.jsonl"))]
 
 E1 = "exhaustive lockstep enumeration of a declared finite input space against an independent reference model (bounded-exhaustive model checking, no sampling)"
 # id -> (engine, technique, level text, level note)
+TRUST = "Trusted: the reference models in harness/refmodel (R-cal successor machine and closed forms cross-checked exhaustively in C01; R-tz TZif reader/POSIX evaluator bound to glibc by `zdump` in C03 thorough; R-num exact i128/rational arithmetic), rustc/x86-64 Linux. Values outside the declared alphabets are not covered (small-scope argument, DESIGN.md section 1)."
+def E(engine, tech, text, note=TRUST):
+    return (engine, tech, text, note)
 CHECKS = {
- "C01": ("E1", "explicit-state enumeration of the complete calendar state space (7,304,484 states of a successor machine) in lockstep with jiff; complete products for constructors/nth-weekday/ISO triples",
-         "All 7.3M dates are visited by the reference successor machine anchored at 1970-01-01=day 0=Thursday and every calendar fact jiff reports is compared on every state; all (y,m,d), (y,w,wd) triples and every month x nth x weekday are enumerated. Complete for the property's whole quantifier, so this is the strongest level the technique offers.",
-         "Trusted: the textbook leap rule, a literal month-length table and the ISO-week definition in refmodel/cal.rs (the closed forms are cross-checked against the successor machine on every state in the same run)."),
+ "C01": E("E1", "explicit-state enumeration of the complete calendar state space (7,304,484 states of a successor machine) in lockstep with jiff; complete products for constructors / nth-weekday / ISO triples",
+         "All 7.3M dates are visited by the reference successor machine anchored at 1970-01-01 = day 0 = Thursday and every calendar fact jiff reports is compared on every state (also for jiff-static's generated copy of itime.rs); all (y,m,d) and ISO (y,w,wd) triples incl. invalid ones and every month x nth x weekday are enumerated. Complete for the property's whole quantifier.",
+         "Trusted: the textbook leap rule, a literal month-length table and the ISO-week definition in refmodel/cal.rs (closed forms are cross-checked against the successor machine on every state in the same run)."),
+ "C02": E("E1", "bounded-exhaustive lockstep enumeration: every epoch day x boundary seconds x nanosecond pool x offsets, every second of selected days, all 187,199 offsets, full constructor product; exact i128 oracle",
+         "Every day boundary of the whole supported range is crossed in both directions (instant->civil->instant) at +-1 ns for a set of offsets, all offsets are enumerated on a timestamp pool, and every (second, nanosecond) constructor pair of a mixed-sign boundary product is compared with an exact i128 count, including ==/cmp/Hash/sign-normalisation of every produced Timestamp."),
+ "C03": E("E1", "exhaustive enumeration of every transition (recorded and rule-generated for every year to 9999) of every zone of the corpus at T-1s,T-0.5s,T-1ns,T,T+1ns,T+0.5s,T+1s plus interior points, in lockstep with an independent TZif/POSIX reference model (itself bound to glibc via zdump in the thorough tier)",
+         "The offset function of a zone is piecewise constant with exactly these breakpoints, so the probe set holds a representative of every piece and both sides of every breakpoint at nanosecond granularity, for all installed zones (894 distinct files incl. posix/ and right/), synthetic zic-compiled zones (slim and fat), bundled zones, and a product alphabet of POSIX TZ strings."),
+ "C04": E("E1", "exhaustive enumeration of every gap/fold window boundary (to the second and nanosecond) of every transition of every zone; classification defined from the reference model by counting pre-images; all four disambiguation strategies and five entry points compared",
+         "Every civil-time window created by every transition (recorded and rule-generated) of every zone is probed at start-1s,start-1ns,start,start+1ns,middle,end-1ns,end,end+1ns,end+1s and at the DateTime limits; the expected class is the number of instants whose local reading is that civil time according to R-tz."),
+ "C05": E("E1", "complete Cartesian enumeration of typed boundary pools over a hand-written catalogue of fallible public operations, run in two build modes (release; release+debug-assertions+overflow-checks) with per-entry outcome digests compared",
+         "Every catalogued Result-returning operation is called with every tuple of its boundary pools; no panic in either build, every Ok value inside its documented range, and identical outcome streams in both builds.",
+         "The catalogue is written by hand against the pinned API (uncatalogued public `-> Result` functions are listed in the evidence). " + TRUST),
+ "C06": E("E1", "bounded-exhaustive lockstep enumeration: zones x start instants around every transition x span/duration pools x operations, against R-cal civil addition + R-tz compatible resolution + exact i128 instant arithmetic",
+         "Zoned arithmetic is compared with the documented algorithm computed independently (civil add with clamping, compatible resolution by pre-image counting, exact elapsed-time add); start_of_day is compared with the first instant of the civil day found by scanning the model's pieces."),
+ "C07": E("E1", "bounded-exhaustive enumeration of ordered pairs (boundary pools, all month ends of two leap cycles, 21x21 neighbourhoods of every transition) x every permitted largest unit; metamorphic + exact oracles (a+s==b, sign, no unit above largest, overshoot-balance, since=-until, exact ns distance)",
+         "For every pair and largest unit the returned span is checked for reversibility through jiff's own addition (pinned by C06/C08), sign consistency, balance by the overshoot test, and exact nanosecond distance for absolute differences; both build modes."),
+ "C08": E("E1", "bounded-exhaustive lockstep enumeration: (date pool + all month ends of leap cycles) x ~2,500-10,000 spans (every unit at every boundary value, all 2-unit mixes, 64-bit thresholds) and signed/unsigned durations x checked/saturating/wrapping/operators/series; R-cal + i128 oracle",
+         "The documented calendar rules are transcribed independently (months first with clamping, then days on the epoch-day count, time units carried in 24-hour days) and compared on the complete product, including exactly when an addition is an error and exact modulo-24h wrapping."),
+ "C09": E("E1", "exhaustive / bounded-exhaustive print->parse enumeration: all 7.3M dates, every second x all sub-second precisions, timestamps and zoned values around every transition of every named zone (both sides of folds, sub-minute LMT periods), all 187,199 display offsets, all whole-minute fixed zones, printer option product; independent RFC 3339/9557 reader",
+         "parse(print(v)) == v is checked on the complete declared spaces (same instant, civil fields, offset, zone) and an independent reader decodes the printed text to the same instant whenever the printed offset is exact."),
+ "C10": E("E1", "bounded-exhaustive enumeration: per (unit, every legal increment) the values k*inc, k*inc+-1ns, (k+1/2)*inc(+-1ns) for k in -3..=2 plus type limits x all 9 modes for Timestamp/Time/DateTime/SignedDuration/Offset; Zoned at day fractions of the real day length and around every transition; illegal increments; exact i128 mode table",
+         "The rounding-mode table is transcribed independently on i128 and compared for every mode x increment x tie/near-tie/limit value, including year 0 and negative years, range errors, and Zoned rounding against R-tz day bounds and offset-preserving re-resolution."),
+ "C11": E("E1", "bounded-exhaustive enumeration of spans x references (none, 24h marker, civil dates/datetimes at month ends and limits, zoned around gaps/folds) x all smallest<=largest unit pairs x increments x 9 modes; metamorphic exact-rational oracle through r+span",
+         "Rounded/balanced spans are judged by where r+rounded lies relative to r+span and its two reachable neighbours using exact rationals and the transcribed mode table; totals against exact rationals within 2 ulp; compare against ordering of r+a, r+b.",
+         "The oracle uses jiff's own `r + span` (pinned independently by C06/C08) as a building block. " + TRUST),
+ "C12": E("E1", "complete Cartesian enumeration of boundary pools: all ordered pairs of (secs,nanos) values incl. i64::MIN/MAX for add/sub/cmp, x factor pool for mul/div, unit constructors/views, float boundary values; Span unit limits +-1, all sign patterns and setter orders; exact i128 / 256-bit oracle; two build modes",
+         "SignedDuration arithmetic is compared with exact arithmetic on a signed 128-bit nanosecond count (floats with exact dyadic expansions), overflow verdicts must be exact, panicking functions must panic exactly when the exact result is unrepresentable in both builds; Span limits, sign invariant and fieldwise semantics are enumerated over all orders."),
+ "C13": E("E2", "explicit-state breadth-first search (stateright) over operation histories: states (instant, zone), ~45 actions each executing the real jiff operation, invariant evaluated on every produced Zoned before canonicalisation, depth bound 3/5",
+         "All Zoned values reachable by any sequence of the action alphabet up to the depth bound from transition-biased initial states are generated by the real operations; offset/civil consistency with the zone, instant-only equality/ordering/hash and instant preservation on zone change are checked on every one."),
+ "C14": E("E1", "exhaustive enumeration: following()/preceding() from every probe instant (first items) and to exhaustion from the range limits, for every zone, against the reference breakpoint list with omission/spurious/order/info/direct-lookup checks",
+         "Every yielded transition is matched against the model's list of info-changing breakpoints (recorded no-ops allowed), omissions are detected by walking both lists, and direct lookups just before/at each item are compared, across the recorded/rule-generated boundary."),
+ "C15": E("E1", "complete product of friendly printer options (27,648 quick / 138,240 thorough configurations + ISO variants) x span and duration boundary pools; exact i128 lossless/lossy oracles",
+         "Every printed text must parse; lossless configurations must round-trip unit for unit (or total for sub-second folding), lossy ones within one unit of the last printed digit, computed exactly."),
+ "C16": E("E1", "exhaustive enumeration of every date of years 0..=9999 (and negative-year pools), every second of a day, transitions of representative zones, all fixed offsets x all specifiers / flags / widths; independent strftime interpreter validated against glibc strftime in the same run within the documented common domain; round trips and contradiction rejection",
+         "Each specifier is compared with an independent definition on R-cal facts (bound to glibc where conventions coincide); determinate formats round-trip on all dates; wrong weekdays/contradicting fields must be rejected; RFC 2822 print/parse on every day x offsets."),
+ "C17": E("E1", "exhaustive short-string enumeration (all strings up to length 5/6 over per-grammar alphabets for 18 parser entry points) + all 1- and 2-edit mutations of seed corpora + digit-run / 1 MB blow-ups with time and allocation bounds + all format strings of <=3 directives + byte/field/structured mutations of TZif and concatenated data, in isolated worker processes",
+         "Every input terminates with Ok or Err without panic within linear time/allocation bounds; every Ok value is range-checked and re-printed/re-parsed; every accepted zone answers a lookup battery without panicking.",
+         "`All byte strings` is covered as all short strings plus all <=2-edit neighbours of valid strings; proportional work is decided up to the stated watchdog/allocation bounds. " + TRUST),
+ "C18": E("E1", "exhaustive configuration product: every zone through {raw bytes, zoneinfo dir, concatenated file, bundled db, static include!/get! macros} x {tz-fat on, off} (two builds of the same dumper) x {slim, fat zic output}; canonical answer streams compared line by line and by digest across builds; all case variants of names; POSIX print->parse",
+         "The same data must give identical answer streams (offset info, civil classification, transitions, printed forms) through every back-end and feature configuration; slim and fat compilations of the same rules must agree wherever zic's own outputs describe the same zone; name lookup is checked for every name in 4-4096 case variants."),
+ "C19": E("E2+E3", "sequential: every event history up to depth 4/5 over a 21-event alphabet executed from scratch on the real public API with a harness-owned clock (no state merging), property-level admissibility monitor; concurrent: loom exhaustive exploration (preemption-bounded DPOR) of the real, unmodified zoneinfo and concatenated database sources compiled against loom via a std shim",
+         "All 194,481 (quick) / 4,084,101 (thorough) histories of get/reset/write/touch/remove/advance are executed and every answer must be a state the name's data had on disk within the last TTL or since the last reset; all interleavings of 2-3 threads up to the preemption bound over 9 bodies x 2 back-ends are explored by loom, which also detects deadlocks.",
+         "The std shim replaces std::sync::{Arc,RwLock} by loom's in the unmodified sources; file-system and clock effects are driven deterministically by the harness; the global tz::db() singleton and TZDIR discovery are not explored. " + TRUST),
+ "C20": E("E2+E3", "all programs over {new, clone, move, drop, eq, query, wrap} on a pool of 3 handle slots up to depth 6/8 executed from scratch on real handles with a counting allocator (no state merging); all 187,199 fixed offsets; baton-scheduled enumeration of all orders of handle operations of 2-3 threads; replay under Miri and ASan",
+         "Every bounded program is run on real TimeZone values; after every step the set of live heap groups must equal the reference model's, queries must answer correctly, equality must be reflexive/symmetric/clone-stable; memory safety is decided by replaying the program set under Miri and AddressSanitizer.",
+         "Memory orderings inside std's Arc are trusted; 32-bit pointer layouts are not exercised. " + TRUST),
 }
 NOT_YET = "check not built yet (construction in progress; see DESIGN.md section 3)"
 
+import re
+DRIVER = open(os.path.join(V, "check")).read()
+BUILT = set(re.findall(r'^    "(C\d+)":', DRIVER, re.M))
 checks, na = [], []
 for p in props:
     i = p["id"]
-    if i in CHECKS:
+    if i in CHECKS and i in BUILT:
         eng, tech, text, note = CHECKS[i]
         checks.append({
             "property_id": i,
@@ -43,6 +92,8 @@ m = {
  },
  "engines": [
   {"name": "E1", "path": "harness/vf", "serves_properties": [c["property_id"] for c in checks if c["engine"] == "E1"], "kind_free_text": E1},
+  {"name": "E2", "path": "harness/c13sr, harness/vf/src/bin/c19.rs", "serves_properties": [c["property_id"] for c in checks if "E2" in c["engine"]], "kind_free_text": "explicit-state search over operation histories / programs executing the real operations (stateright BFS where merging states is sound; replay-from-scratch with no merging otherwise)"},
+  {"name": "E3", "path": "harness/c19loom", "serves_properties": [c["property_id"] for c in checks if "E3" in c["engine"]], "kind_free_text": "controlled-scheduler exploration of the real source under loom (preemption-bounded, exhaustive within the bound)"},
  ],
  "checks": checks,
  "notes": "See DESIGN.md. Exit 2 from ./check is an engine failure (build error, crash, failed non-vacuity requirement), never a verdict.",
